@@ -704,6 +704,10 @@ def fake_proc_backend_class():
             if fail_after is not None:
                 levels = levels[: max(0, fail_after)]
                 exit_code = 1
+            short = (self.plan.get("short") or {}).get(f"{trial_id}:{run}")
+            if short is not None and fail_after is None:
+                # a training script that ends by itself (exit code 0) before the last level
+                levels = levels[: max(1, short)]
             proc = FakeProc(self, trial_id, run, levels, exit_code,
                             late=self.prng.randint(0, self.plan.get("late_max", 2)),
                             exit_lag=self.prng.randint(0, self.plan.get("exit_lag_max", 1)),
